@@ -457,6 +457,9 @@ def consistent_graph(rng, max_nodes=8, erase=True, wrong_output=True):
     return g, truth, erased
 
 
+NAMES += ["a\x00b", "\x00x", "nul\x00"]
+
+
 def rand_name(rng, slash=False):
     r = rng.random()
     if r < 0.6:
